@@ -231,7 +231,17 @@ func (s *stdSvc) sender(g stdIngress) (func([]byte) error, string, int, error) {
 		return nil, "", 0, err
 	}
 	_, port := splitHostPort(c.local)
-	return c.send, s.ip(10 + g.UA), port, nil
+	// The connection was alive a moment ago (a dead one is replaced above) and
+	// everything sent on it before has come out behind a barrier: if a write
+	// fails now, the proxy has closed a connection that carried only in-domain
+	// messages - that is the product's doing, not the harness's.
+	send := func(b []byte) error {
+		if err := c.send(b); err != nil {
+			return labLost{fmt.Sprintf("the proxy closed the TCP connection %s on which the message was being sent (%v): a connection carrying well-formed messages must stay open and be served", c, err)}
+		}
+		return nil
+	}
+	return send, s.ip(10 + g.UA), port, nil
 }
 
 // tcpConnOf: the client connection a TCP ingress path uses (a user agent may
